@@ -1,6 +1,7 @@
 """C08 — random sampling from a specification is exactly uniform."""
 import itertools
 import json
+import re
 from contextlib import contextmanager
 from fractions import Fraction
 
@@ -25,7 +26,8 @@ RULE = (
     "(stats, 15%) the same per-rule enumeration + exact composition + whole-sequence cross-check on REAL specifications over "
     "words WITH STATISTICS (harness/universes/c08_stats.py: parameters kept, summed over a product, dropped when identically "
     "0 -> `zeroes`, two parent parameters on one child parameter -> contradiction skipping), for every (n, parameters), "
-    "uniform among the brute-force objects with those parameters; the real DisjointUnion/CartesianProduct objects of the "
+    "uniform among the brute-force objects with those parameters; 4% of these start from a class without statistics with a "
+    "unary union ADDING a statistic in the pack (known finding, see known_findings.json); the real DisjointUnion/CartesianProduct objects of the "
     "specification are described to the constructor-level model. "
     "(rules, 65%) synthetic constructor-level cases: real DisjointUnion / CartesianProduct objects built from stub classes "
     "with random extra_parameters / fixed_values / minimum values and random term tables, all r in 0..count+1; a 'sane' "
@@ -59,9 +61,11 @@ LEVEL_NOTE = (
     "per-rule statements (threshold, valid compositions) are proved and the composition is checked exactly by the harness on "
     "real specifications with statistics. Objects = parse trees: that distinct parse trees are distinct objects and "
     "backward maps are bijections is C07's contract (checked here by brute force on every case). Modelled, not verified: "
-    "the hand transcription in Count/SampleModel.v, tied by the correspondence. Observation (not in the generated stream): an "
+    "the hand transcription in Count/SampleModel.v, tied by the correspondence. KNOWN FINDING (in the corpus and in 4% of the "
+    "stats stream, judged by the oracle, matched by finding_match as 'eqpath-child-statistic-untracked-by-parent-sampling'): an "
     "EquivalencePathRule whose child has a parameter the parent lacks fixes it to 0 when sampling while counting sums over "
-    "all its values -> RuntimeError / non-uniform (see the final report of the C08 build)."
+    "all its values -> RuntimeError on in-range draws / non-uniform although the count is right; the model reproduces it "
+    "(fixed_values are modelled), so model and implementation agree there and only the oracle fails."
 )
 TRUSTED = [
     "probability semantics Count/SampleProb.v `prob` (independent uniform draws, exceptions = no value) — a definition",
@@ -229,7 +233,7 @@ def get_spec(universe, cls):
             else:
                 from harness.universes import c08_stats
 
-                spec = c08_stats.stat_spec(cls[0], cls[1], cls[2], cls[3])
+                spec = c08_stats.stat_spec(cls[0], cls[1], cls[2], cls[3], add=len(cls) > 4 and bool(cls[4]))
         except BaseException as ex:  # pylint: disable=broad-except
             spec = ("failed", "%s: %s" % (type(ex).__name__, ex))
         _SPECS[key] = spec
@@ -465,7 +469,10 @@ def _gen_stats(rng, tier):
     else:
         stats = [rng.choice(alph) for _ in range(3)]
     upto = rng.randint(2, 6 if tier == "thorough" else 5) if alph == "ab" else rng.randint(2, 4)
-    return {"kind": "stats", "cls": [prefix, pats, alph, stats], "N": upto, "nseq": min(upto, rng.randint(1, 3))}
+    cls = [prefix, pats, alph, stats]
+    if rng.random() < 0.04:
+        cls = [prefix, pats, alph, [], 1]      # start class without statistics, AddStat in the pack
+    return {"kind": "stats", "cls": cls, "N": upto, "nseq": min(upto, rng.randint(1, 3))}
 
 
 def _rs(pc):
@@ -1128,6 +1135,41 @@ def oracle(case, res):
     return None
 
 
+# ------------------------------------------------------------------ known findings
+FINDING_EQPATH = "eqpath-child-statistic-untracked-by-parent-sampling"
+_FAIL_SHAPES = (
+    re.compile(r"draw r=\d+ of \d+ at .* raises error 1$"),                      # RuntimeError on an in-range draw
+    re.compile(r"draw r=\d+ in 1\.\.\d+ raises error 1 "),
+    re.compile(r"P\(.*\) = \S+ instead of 1/\d+$"),                              # non-uniform
+    re.compile(r"sampled objects differ from the class: never sampled \[.+\], not in class \[\]$"),
+)
+
+
+def _untracked_child_statistic(spec):
+    """is there a unary DisjointUnion rule (EquivalencePathRule / equivalence rule) in the specification whose
+    child carries a parameter that no parent parameter maps to?"""
+    for c in spec_classes(spec):
+        rule = spec.rules_dict[c]
+        if rule_kind(rule) != K_UNION or len(rule.children) != 1:
+            continue
+        mapped = set(rule.constructor.extra_parameters[0].values())
+        if any(k not in mapped for k in rule.children[0].extra_parameters):
+            return True
+    return False
+
+
+def finding_match(case, why):
+    """identifies the ONE known finding of C08 (see known_findings.json); None for everything else"""
+    if case.get("kind") != "stats" or not isinstance(why, str):
+        return None
+    if not any(rx.search(why) for rx in _FAIL_SHAPES):
+        return None            # e.g. a wrong count, a foreign object, another exception: not this finding
+    spec = get_spec("stats", case["cls"])
+    if isinstance(spec, tuple) or not _untracked_child_statistic(spec):
+        return None
+    return FINDING_EQPATH
+
+
 def nontrivial(case, res):
     tags = set(res.get("tags", []))
     if case["kind"] == "rules":
@@ -1186,4 +1228,4 @@ def shrink(case):
         yield dict(case, cls=[cls[0][:-1]] + cls[1:])
     if case["kind"] == "stats" and len(cls[3]) > 1:
         for i in range(len(cls[3])):
-            yield dict(case, cls=cls[:3] + [cls[3][:i] + cls[3][i + 1:]])
+            yield dict(case, cls=cls[:3] + [cls[3][:i] + cls[3][i + 1:]] + cls[4:])
